@@ -161,6 +161,8 @@ def strat(tier):
             st.tuples(st.just('copy'), u),
             st.tuples(st.just('contains'), u, ki),
             st.tuples(st.just('eq_live'), u, u), st.tuples(st.just('eq_live'), u, u),
+            st.tuples(st.just('update_live'), u, u, st.sampled_from(['update', 'ior'])),
+            st.tuples(st.just('update_live'), u, u, st.sampled_from(['update', 'ior'])),
             st.tuples(st.just('iterate'), u),
             st.tuples(st.just('fill'), u, ki),
         ).map(list)
@@ -396,6 +398,23 @@ def run(case):
                 got = _call(c.update, *a, **kw)
                 for k, v in eff:
                     ref.set(k, v)
+        elif name == 'update_live':
+            # update() / |= from ANOTHER live cache: the dict protocol applies (keys in the source's iteration order, each value
+            # read with source[key], which is a counted lookup there and refreshes an LRU source)
+            c2, ref2, _calls2 = univ[op[2] % len(univ)]
+            if c2 is c:
+                got = _call(c.update, c)
+            else:
+                order = list(c2)
+                if op[3] == 'ior':
+                    def _ior2(c=c, c2=c2):
+                        cc = c
+                        cc |= c2
+                    got = _call(_ior2)
+                else:
+                    got = _call(c.update, c2)
+                for k in order:
+                    ref.set(k, ref2.getitem(k))
         elif name == 'ior':
             a, kw, eff = _mk(op[2], [(k % nkeys, v) for k, v in op[3]])
 
